@@ -6,6 +6,7 @@ TECH = "solver-based bounded symbolic execution of the real Go SSA (gosym: go/ss
 NOTE = "trusted: go/ssa v0.29.0, the gosym interpreter and its (randomly self-tested) term simplifier, the SMT-LIB printer, z3; stubs, assumptions and bounds are listed per run in the evidence file; a pass means 'holds for all values within the stated bounds', nothing outside them"
 CHECKS = {
  "C14": ("bounded symbolic execution of keyban.OnRequest -> Swarm.Contains/Notify -> State -> crdt.Durable (Add/Del/Has/Merge/fetch/store) over stubbed storage engines: every sequence of ban / unban / use on broker A and delivery / use on a second durable broker B, symbolic clock steps", "3 C14"),
+ "C15": ("bounded symbolic execution of the emitter side of the disk store - storage.SSD.Configure (options handed to badger.Open), Store/storeFrame/encodeFrame (what is committed, when, with which expiry, whether a failed commit is reported), Close, lookup/loadMessage after a restart, and Message.Encode/DecodeMessage with the real messageCodec over the real kelindar/binary encoder/decoder - over badger's documented contract as a stand-in (atomic Update, committed entries survive a kill and are seen by Open on the same directory, key order, expiry): histories of stores with symbolic channel, time, payload, ttl and commit failures, then clean shutdown or kill, reopen, and a history query per message. badger's own crash recovery, the file system and the page cache are assumed, not checked (stated in the evidence); natively the samples and counterexamples run against the real badger on a temporary directory, a kill being emulated by copying the live directory", "3 C15 and 6"),
  "C16": ("bounded symbolic execution of all 14 EncodeTo functions, DecodePacket, decodeHeader, writeHeader, encodeLength against the paho.mqtt.golang packets implementation (also executed symbolically from its SSA) and a transcription of the 3.1.1 remaining-length algorithm: every remaining length < 2^28, every flag/QoS/id value, strings and tuple counts up to the stated bound, payload lengths at every encoding and buffer boundary", "3 C16"),
  "C01": ("bounded symbolic execution of message.Trie Subscribe/Unsubscribe/Lookup/Count, lookupEmitter/lookupMqtt/randomByGroup, node.orphan and Subscribers over histories whose filter and channel words are arbitrary 32-bit values (literal, '+', '#', share, repeated and permuted levels arise as solver-chosen equality patterns), both matcher modes, compared with a reference matcher; Count and node reclamation", "3 C01"),
  "C02": ("bounded symbolic execution of pubsub.Subscribe/Unsubscribe/Publish, broker.Conn.CanSubscribe/CanUnsubscribe/Send, message.Counters and the trie on two real connections: ssid-level histories with arbitrary 32-bit words (so filters that collide in the per-connection XOR-fold bookkeeping are found by the solver), delivery compared with the set of acknowledged (connection, filter) pairs", "3 C02"),
@@ -26,7 +27,6 @@ CHECKS = {
  "C20": ("bounded symbolic execution of Xtea/Salsa/Shuffle EncryptKey/DecryptKey with every secret symbolic, the real base64 codec pair (encoding/base64 SSA + decodeKey), license V1 String/Parse and Parse on arbitrary byte strings; decided compositionally (codec bijection L1, cipher inversion L2)", "3 C20"),
 }
 NA = {
- "C15": "durability across process death depends on badger's value log, the OS page cache and the file system at arbitrary kill instants; none of that can be encoded as SSA + SMT, and stubbing badger would assume the property",
 }
 PENDING = "check not built yet in this session (work in progress, see DESIGN.md section 8); not claimed"
 ALL = ["C%02d" % i for i in range(1, 21)]
